@@ -49,17 +49,28 @@ type C16Case struct {
 	NoWait  bool   `json:"nowait,omitempty"`
 	Buf     []byte `json:"buf,omitempty"`
 	Garbage []byte `json:"garbage,omitempty"`
+	// kind "seq": a second setter on the same client after a first one in the other wait mode whose
+	// acknowledgement carries PrevErrno and has not been waited for
+	Prev      string `json:"prev,omitempty"`
+	PrevErrno int    `json:"prev_errno,omitempty"`
 }
 
 func (c C16Case) Describe() string {
-	return fmt.Sprintf("kind=%s setter=%s u32=%d bool=%v nowait=%v buf(%d)=%x garbage=%x", c.Kind, c.Setter, c.U32, c.Bool, c.NoWait, len(c.Buf), c.Buf, c.Garbage)
+	return fmt.Sprintf("kind=%s setter=%s u32=%d bool=%v nowait=%v prev=%s prev-errno=%d buf(%d)=%x garbage=%x", c.Kind, c.Setter, c.U32, c.Bool, c.NoWait, c.Prev, c.PrevErrno, len(c.Buf), c.Buf, c.Garbage)
 }
 
 var setters = []string{"SetPID", "SetRateLimit", "SetBacklogLimit", "SetEnabled", "SetImmutable", "SetFailure", "SetBacklogWaitTime"}
 
 func genC16(t *rapid.T) C16Case {
-	c := C16Case{Kind: rapid.SampledFrom([]string{"set", "set", "get", "wire", "wire"}).Draw(t, "kind")}
+	c := C16Case{Kind: rapid.SampledFrom([]string{"set", "set", "seq", "get", "wire", "wire"}).Draw(t, "kind")}
 	switch c.Kind {
+	case "seq":
+		c.Setter = rapid.SampledFrom(setters).Draw(t, "setter")
+		c.Prev = rapid.SampledFrom(setters).Draw(t, "prev")
+		c.U32 = rapid.Uint32().Draw(t, "u32")
+		c.Bool = rapid.Bool().Draw(t, "bool")
+		c.NoWait = rapid.Bool().Draw(t, "nowait")
+		c.PrevErrno = rapid.SampledFrom([]int{0, 0, int(syscall.EINVAL), int(syscall.EPERM), int(syscall.EBUSY)}).Draw(t, "preverrno")
 	case "set":
 		c.Setter = rapid.SampledFrom(setters).Draw(t, "setter")
 		c.U32 = rapid.OneOf(rapid.Uint32(), rapid.SampledFrom([]uint32{0, 1, 2, 3, 64, 8192, 1<<31 - 1, 1 << 31, 1<<32 - 1, 60000})).Draw(t, "u32")
@@ -101,8 +112,56 @@ func checkDecoded(got *libaudit.AuditStatus, buf []byte, what string) error {
 	return nil
 }
 
+func callSetter(cl *libaudit.AuditClient, name string, u32 uint32, b bool, wm libaudit.WaitMode) error {
+	switch name {
+	case "SetPID":
+		return cl.SetPID(wm)
+	case "SetRateLimit":
+		return cl.SetRateLimit(u32, wm)
+	case "SetBacklogLimit":
+		return cl.SetBacklogLimit(u32, wm)
+	case "SetEnabled":
+		return cl.SetEnabled(b, wm)
+	case "SetImmutable":
+		return cl.SetImmutable(wm)
+	case "SetFailure":
+		return cl.SetFailure(libaudit.FailureMode(u32%3), wm)
+	}
+	return cl.SetBacklogWaitTime(int32(u32), wm)
+}
+
 func propC16(c C16Case) error {
 	switch c.Kind {
+	case "seq":
+		// "Every Set* command sends one AUDIT_SET request": also when an earlier request of the other wait mode
+		// is still unacknowledged on the same client, whatever its acknowledgement says
+		k := simk.New(7)
+		k.KeepQueue = true
+		errno := c.PrevErrno
+		k.OnSend = func(k *simk.K, s simk.Sent) {
+			k.Push(simk.Ack(s.Seq, errno, s.Type))
+			errno = 0
+		}
+		cl := &libaudit.AuditClient{Netlink: k}
+		first, second := libaudit.NoWait, libaudit.WaitForReply
+		if c.NoWait {
+			first, second = libaudit.WaitForReply, libaudit.NoWait
+		}
+		_ = callSetter(cl, c.Prev, 1, true, first)
+		if len(k.Sent) != 1 {
+			return fmt.Errorf("%s (first call): %d requests sent, want one", c.Prev, len(k.Sent))
+		}
+		_ = callSetter(cl, c.Setter, c.U32, c.Bool, second) // the result depends on what is queued and is not asserted here
+		what := fmt.Sprintf("%s after an unacknowledged %s (ack errno %d, modes swapped: %v)", c.Setter, c.Prev, c.PrevErrno, c.NoWait)
+		if len(k.Sent) != 2 {
+			return fmt.Errorf("%s: %d requests were sent by the second command, every Set* command sends exactly one", what, len(k.Sent)-1)
+		}
+		s := k.Sent[1]
+		if uint32(s.Type) != uapi.A("AUDIT_SET") || len(s.Data) != sizeofStatus || s.Flags != syscall.NLM_F_REQUEST|syscall.NLM_F_ACK {
+			return fmt.Errorf("%s: the second command sent type %d, %d bytes, flags %#x", what, s.Type, len(s.Data), s.Flags)
+		}
+		hC16.Class("set-after-unacknowledged-set")
+		hC16.NonTrivial(hx.FP(c.Describe()), c.Describe)
 	case "set":
 		k := simk.New(7)
 		k.OnSend = func(k *simk.K, s simk.Sent) { k.Push(simk.Ack(s.Seq, 0, s.Type)) }
